@@ -1,3 +1,4 @@
+import Varint.Bridge.RLE
 import Varint.Bridge.Tagged
 import Varint.Lemmas.Fuel
 import Varint.Lemmas.Bounded
@@ -270,6 +271,39 @@ theorem rle_count_aux_no_fault (fuel : Nat) (bs : List Nat) : runCountAux fuel b
             · simp
 
 theorem rle_count_reads_lt_n (bs : List Nat) : runCount bs ≠ .fault := rle_count_aux_no_fault _ _
+
+theorem rle_count_aux_no_err (fuel : Nat) (bs : List Nat) (rem : Nat) : runCountAux fuel bs rem ≠ .err := by
+  induction fuel generalizing bs rem with
+  | zero => simp [runCountAux]
+  | succ fuel ih =>
+    unfold runCountAux
+    split
+    · simp
+    · split
+      · simp
+      · simp
+      · split
+        · simp
+        · simp
+        · split
+          · simp
+          · split
+            · simp
+            · rename_i he; exact absurd he (ih _ _)
+            · simp
+
+/-- **on the machine translation of `varintRLEGetRunCount`** (regenerated from src/varintRLE.c on every run): for ANY
+    byte string of the declared size — truncated, corrupt, hostile — the C terminates (every fuel above the size
+    suffices) and returns the count of the bounded model, which never loads a byte at or beyond the declared size
+    (`rle_count_reads_lt_n`); it reports a count, never an error or a crash -/
+theorem c_rle_run_count_bounded (bs : List Nat) (hb : ∀ b ∈ bs, b < 256) (hlen : bs.length < 2 ^ 63) (fuel : Nat)
+    (hf : bs.length < fuel) :
+    ∃ r, runCount bs = .ok r ∧
+      Varint.Gen.C.rleGetRunCount fuel (Varint.Bridge.Tagged.bufOf bs) bs.length = some r := by
+  cases h : runCount bs with
+  | fault => exact absurd h (rle_count_reads_lt_n bs)
+  | err => exact absurd h (rle_count_aux_no_err _ _ _)
+  | ok r => exact ⟨r, rfl, Varint.Bridge.RLE.rleGetRunCount_eq bs hb hlen fuel hf r h⟩
 
 /-- both Elias array decoders, for ANY bit source that is defined on the first `srcBits` bits and
     faults everywhere else: no bit at or beyond `srcBits` is ever loaded -/
